@@ -509,7 +509,7 @@ Theorem inside_full_access : forall h params args own outer m n v,
   run_body is_upper h params (BGet n) (own :: outer) args = Ok (h, v).
 Proof.
   intros h params args own outer m n v Hm Ha Hp.
-  unfold run_body, lexical_lookup. rewrite Hp. simpl. rewrite Hm, Ha. reflexivity.
+  unfold run_body, run_body_simple, lexical_lookup. rewrite Hp. simpl. rewrite Hm, Ha. reflexivity.
 Qed.
 
 Theorem inside_full_access_set : forall h params a args own outer m n old,
@@ -518,7 +518,7 @@ Theorem inside_full_access_set : forall h params a args own outer m n old,
   run_body is_upper h params (BSet n) (own :: outer) (a :: args) = Ok (scope_set h own n a, a).
 Proof.
   intros h params a args own outer m n old Hm Ha Hp.
-  unfold run_body, lexical_set, lexical_lookup. rewrite Hp. simpl. rewrite Hm, Ha. reflexivity.
+  unfold run_body, run_body_simple, lexical_set, lexical_lookup. rewrite Hp. simpl. rewrite Hm, Ha. reflexivity.
 Qed.
 
 (* members of enclosing packages are reached the same way (lexical chain), first binding wins *)
@@ -528,7 +528,50 @@ Theorem inside_sees_enclosing : forall h params args clos n v s,
   run_body is_upper h params (BGet n) clos args = Ok (h, v).
 Proof.
   intros h params args clos n v s Hp Hl.
-  unfold run_body, lexical_lookup. rewrite Hp, Hl. reflexivity.
+  unfold run_body, run_body_simple, lexical_lookup. rewrite Hp, Hl. reflexivity.
+Qed.
+
+(* ---------- dot paths written inside a package: lexical head, never the caller's bindings ---------- *)
+(* a dot path read inside a function body is the specification's verdict in the function's own
+   lexical context (parameters, then captured scopes) *)
+Theorem inside_dot_read_is_visible : forall h params clos args p,
+  names_ok p ->
+  verdict_of (run_body is_upper h params (BDot p) clos args)
+    = PkgSpec.spec_path is_upper h (zip_params params args) clos p None.
+Proof. intros. unfold run_body, run_body_simple. apply dot_path_is_visible; assumption. Qed.
+
+Theorem inside_dot_write_is_visible : forall h params clos a args p,
+  names_ok p ->
+  verdict_of (run_body is_upper h params (BDotSet p) clos (a :: args))
+    = PkgSpec.spec_path is_upper h (zip_params params (a :: args)) clos p (Some a).
+Proof. intros. unfold run_body, run_body_simple. apply dot_path_is_visible; assumption. Qed.
+
+(* the head of the path resolves to the member of the package's own scope (whatever its case),
+   so the walk starts from the package's own hash / nested package *)
+Theorem inside_dot_head_is_own_member : forall h params args own outer m key v,
+  scope_map h own = Some m -> assoc m key = Some v ->
+  assoc (zip_params params args) key = None ->
+  lexical_lookup h (zip_params params args) (own :: outer) key = Some (v, Some own).
+Proof.
+  intros h params args own outer m key v Hm Ha Hp.
+  unfold lexical_lookup. rewrite Hp. simpl. rewrite Hm, Ha. reflexivity.
+Qed.
+
+(* bindings of the CALLER (its parameters / locals) never reach the callee: a call made from a
+   context whose frame does not bind the head of the call path gives the same result and effects
+   as the call made at top level; the callee's body has no access to the caller's frame at all *)
+Lemma lexical_lookup_frame_irrelevant : forall h frame stack key,
+  assoc frame key = None -> lexical_lookup h frame stack key = lexical_lookup h [] stack key.
+Proof. intros. unfold lexical_lookup. rewrite H. reflexivity. Qed.
+
+Theorem caller_bindings_do_not_leak : forall h frame stack key rest args,
+  assoc frame key = None ->
+  call_path is_upper h frame stack (key :: rest) args = call_path is_upper h [] stack (key :: rest) args.
+Proof.
+  intros h frame stack key rest args Hf.
+  unfold call_path, Pkg.dot_get_set.
+  rewrite (lexical_lookup_frame_irrelevant h frame stack key Hf).
+  destruct rest; reflexivity.
 Qed.
 
 End WithUpper.
